@@ -8,12 +8,13 @@
       printed   sequence of editions (see T4Doc.tla, WRITTEN)
       batch     requested edition
       time      simulation time reported for it
-      obs       items [fn, name, zid, ebins, tbins, val, sig, integ]
+      obs       items [fn, name, zid, shape, ebins, tbins, val, sig, emesh, integ]
    TLC computes ReadOf(printed, batch) and compares.  The verdict is total: the
    ids of all mismatching cases are written out with the first differing item. *)
 EXTENDS Integers, Sequences, FiniteSets, TLC, Json, IOUtils
 
 MaxEditions == 0  MaxResponses == 0  MaxZones == 0  MaxE == 0  MaxT == 0  Thin == FALSE
+Kinds == {}  ShapeIds == {}
 VARIABLES doc, req, printed, expected, pc
 D == INSTANCE T4Doc
 
@@ -27,8 +28,13 @@ tvars == <<doc, req, printed, expected, pc, i, bad>>
    T4Doc builds, so the observation is compared field by field *)
 SameItem(e, o) ==
    /\ e.fn = o.fn /\ e.name = o.name /\ e.zid = o.zid
+   /\ e.shape = o.shape
    /\ e.ebins = o.ebins /\ e.tbins = o.tbins
    /\ e.val = o.val /\ e.sig = o.sig
+   /\ Len(e.emesh) = Len(o.emesh)
+   /\ \A k \in DOMAIN e.emesh :
+        /\ e.emesh[k].kind = o.emesh[k].kind
+        /\ (e.emesh[k].kind = "yes" => e.emesh[k].val = o.emesh[k].val /\ e.emesh[k].sig = o.emesh[k].sig)
    /\ Len(e.integ) = Len(o.integ)
    /\ \A k \in DOMAIN e.integ :
         /\ e.integ[k].kind = o.integ[k].kind
